@@ -18,8 +18,6 @@ import (
 
 // ProxyRequestToEndpointsWithRetry handles request proxying with automatic failover
 func (s *Service) ProxyRequestToEndpointsWithRetry(ctx context.Context, w http.ResponseWriter, r *http.Request, endpoints []*domain.Endpoint, stats *ports.RequestStats, rlog logger.StyledLogger) error {
-	s.IncrementRequests()
-
 	// Use context logger if available, fallback to provided logger
 	ctxLogger := middleware.GetLogger(ctx)
 	if ctxLogger != nil {
@@ -37,6 +35,7 @@ func (s *Service) ProxyRequestToEndpointsWithRetry(ctx context.Context, w http.R
 		} else {
 			rlog.Error("no healthy endpoints available")
 		}
+		s.IncrementRequests()
 		s.RecordFailure(ctx, nil, time.Since(stats.StartTime), common.ErrNoHealthyEndpoints)
 		return common.ErrNoHealthyEndpoints
 	}
@@ -53,6 +52,8 @@ func (s *Service) ProxyRequestToEndpointsWithRetry(ctx context.Context, w http.R
 // Note: Connection increment/decrement is handled by RetryHandler.executeProxyAttempt
 // to avoid double-counting (see proxy_olla_connection_counting_test.go for context).
 func (s *Service) proxyToSingleEndpoint(ctx context.Context, w http.ResponseWriter, r *http.Request, endpoint *domain.Endpoint, stats *ports.RequestStats, rlog logger.StyledLogger) error {
+	// one unit per attempt, like the success/failure counters: total = successful + failed
+	s.IncrementRequests()
 	stats.EndpointName = endpoint.Name
 
 	targetURL := common.BuildTargetURL(r, endpoint, s.configuration.GetProxyPrefix())
